@@ -25,15 +25,21 @@ CONSTANTS Proto,         \* "http" | "grpc"
           StopKinds,     \* subset of {"cancel", "shutdown"}
           SdInterrupts,  \* TRUE: Shutdown returns at once and ends the call; FALSE: Shutdown waits for the call
           Deviation,     \* "none" or the name of a seeded deviation (to show that the contract notices it)
-          MaxClock
+          MaxClock,
+          CallTO,        \* gRPC export timeout (bounds the whole call): it fires between tick CallTO-1 and CallTO; 0 = none
+          XCfgs          \* exporter-option dimension: set of [headers, gzip, env, tmo]; the environment picks one
 
-VARIABLES pc, now, start, n, sentAt, lastO, wake, waitFrom, ctx, sdPend, hist, mon, bad
-vars == <<pc, now, start, n, sentAt, lastO, wake, waitFrom, ctx, sdPend, hist, mon, bad>>
+VARIABLES pc, now, start, n, sentAt, lastO, wake, waitFrom, ctx, sdPend, hist, mon, bad, opt
+vars == <<pc, now, start, n, sentAt, lastO, wake, waitFrom, ctx, sdPend, hist, mon, bad, opt>>
 
 SetMax(S) == CHOOSE x \in S : \A y \in S : y <= x
-MCfg == [proto |-> Proto, enabled |-> Enabled, maxel |-> MaxElapsed, boffmax |-> SetMax(Backoffs),
-         tol |-> IF Late THEN 1 ELSE 0, atto |-> IF \E o \in Outcomes : o.kind = "tmpnet" THEN AttTO ELSE 0,
-         tick |-> 1, want |-> NoWant]
+EncOf(xc) == IF xc.gzip THEN "gzip" ELSE "none"
+MCfg(xc) == [proto |-> Proto, enabled |-> Enabled, maxel |-> MaxElapsed, boffmax |-> SetMax(Backoffs),
+             tol |-> IF Late THEN 1 ELSE 0, atto |-> IF \E o \in Outcomes : o.kind = "tmpnet" THEN AttTO ELSE 0,
+             cto |-> CallTO, tick |-> 1, want |-> NoWant, nhdr |-> xc.headers, enc |-> EncOf(xc), grp |-> 0]
+(* the export timeout of the whole call has fired *)
+Ignored == IF Deviation = "timeoutIgnored" /\ opt.headers > 0 THEN 3 ELSE 0   \* seeded deviation: timeouts fire 3 ticks late
+DeadlinePassed == CallTO # 0 /\ now - start >= CallTO + Ignored
 
 NoO == [kind |-> "none", code |-> 0, partial |-> FALSE, ri |-> FALSE, thr |-> 0, slow |-> 0]
 Item(i, o, how, at) == [i |-> i, kind |-> o.kind, code |-> o.code, partial |-> o.partial, ri |-> o.ri, thr |-> o.thr,
@@ -46,47 +52,66 @@ Hold == [NoO EXCEPT !.kind = "hold"]
 Observe(evs) == LET r == StepAll(mon, evs, {}) IN mon' = r[1] /\ bad' = bad \cup r[2]
 
 Init == /\ pc = "call" /\ now = 0 /\ start = 0 /\ n = 0 /\ sentAt = 0 /\ lastO = NoO /\ wake = 0 /\ waitFrom = 0
-        /\ ctx = "live" /\ sdPend = FALSE /\ hist = <<>> /\ mon = Fresh(MCfg) /\ bad = {}
+        /\ ctx = "live" /\ sdPend = FALSE /\ hist = <<>> /\ bad = {}
+        /\ opt \in XCfgs /\ mon = Fresh(MCfg(opt))
 
 (* the call returns *)
 Return(isErr, ref, pre) ==
   /\ pc' = "done"
   /\ Observe(pre \o <<[ev |-> "Ret", t |-> now, err |-> isErr, ref |-> ref]>>
              \o (IF sdPend THEN <<[ev |-> "ShutdownRet", t |-> now]>> ELSE <<>>) \o <<[ev |-> "End", t |-> now]>>)
-  /\ UNCHANGED <<now, start, n, sentAt, lastO, wake, waitFrom, ctx, sdPend, hist>>
+  /\ UNCHANGED <<now, start, n, sentAt, lastO, wake, waitFrom, ctx, sdPend, hist, opt>>
 
 StopBefore == /\ pc = "call" /\ ctx = "live" /\ "cancel" \in StopKinds
               /\ ctx' = "cancel" /\ hist' = Append(hist, Item("stop", NoO, "cancel", "before"))
               /\ Observe(<<[ev |-> "Cancel", t |-> now, k |-> n]>>)
-              /\ UNCHANGED <<pc, now, start, n, sentAt, lastO, wake, waitFrom, sdPend>>
+              /\ UNCHANGED <<pc, now, start, n, sentAt, lastO, wake, waitFrom, sdPend, opt>>
 
 Call == /\ pc = "call" /\ pc' = "loop" /\ start' = now
         /\ Observe(<<[ev |-> "Call", t |-> now]>>)
-        /\ UNCHANGED <<now, n, sentAt, lastO, wake, waitFrom, ctx, sdPend, hist>>
+        /\ UNCHANGED <<now, n, sentAt, lastO, wake, waitFrom, ctx, sdPend, hist, opt>>
 
 (* fn(ctx): one attempt, unless the context is already done *)
 Fn == /\ pc = "loop"
-      /\ IF ctx # "live" THEN Return(TRUE, 0, <<>>)
+      /\ IF ctx # "live" \/ DeadlinePassed THEN Return(TRUE, 0, <<>>)
          ELSE IF n = MaxAttempts
-         THEN (pc' = "cut" /\ UNCHANGED <<now, start, n, sentAt, lastO, wake, waitFrom, ctx, sdPend, hist, mon, bad>>)
+         THEN (pc' = "cut" /\ UNCHANGED <<now, start, n, sentAt, lastO, wake, waitFrom, ctx, sdPend, hist, mon, bad, opt>>)
          ELSE (/\ n' = n + 1 /\ sentAt' = now /\ pc' = "inflight"
                /\ Observe(<<[ev |-> "Attempt", n |-> n + 1, t |-> now,
-                             hash |-> IF Deviation = "payload" /\ n >= 1 THEN "other" ELSE "h"]>>)
-               /\ UNCHANGED <<now, start, lastO, wake, waitFrom, ctx, sdPend, hist>>)
+                             hash |-> IF Deviation = "payload" /\ n >= 1 THEN "other" ELSE "h",
+                             hdr |-> IF Deviation = "headersOnRetry" /\ n >= 1 THEN 0 ELSE opt.headers,
+                             enc |-> IF Deviation = "gzipFirstOnly" /\ n >= 1 THEN "none" ELSE EncOf(opt)]>>)
+               /\ UNCHANGED <<now, start, lastO, wake, waitFrom, ctx, sdPend, hist, opt>>)
 
-(* the collector serves outcome o for the attempt in flight *)
+(* the collector serves outcome o for the attempt in flight; tmpnet (HTTP) = it never answers and the per-attempt
+   timeout ends the attempt; hung (gRPC) = it never answers and the export timeout of the whole call ends it *)
+Unanswered(o) == o.kind \in {"tmpnet", "hung"}
+TimeoutDue(o) == IF o.kind = "hung" THEN DeadlinePassed
+                 ELSE now - sentAt = Dur(o) + Ignored
 Respond(o) ==
-  /\ pc = "inflight" /\ ctx = "live" /\ o \in Outcomes /\ now - sentAt = Dur(o)
+  /\ pc = "inflight" /\ ctx = "live" /\ o \in Outcomes
+  /\ IF Unanswered(o) THEN TimeoutDue(o) ELSE (now - sentAt = Dur(o) /\ ~DeadlinePassed)
   /\ lastO' = o /\ pc' = "eval" /\ hist' = Append(hist, Item("o", o, "", ""))
-  /\ Observe(<<EvResp(n, o, IF o.kind = "tmpnet" THEN sentAt ELSE now)>>
+  /\ Observe(<<EvResp(n, o, IF Unanswered(o) THEN sentAt ELSE now)>>
+             \o (IF Unanswered(o) THEN <<[ev |-> "Gone", n |-> n, t |-> now]>> ELSE <<>>)
              \o (IF Proto = "http" /\ o.kind = "status" THEN <<[ev |-> "Got", t |-> now]>> ELSE <<>>))
-  /\ UNCHANGED <<now, start, n, sentAt, wake, waitFrom, ctx, sdPend>>
+  /\ UNCHANGED <<now, start, n, sentAt, wake, waitFrom, ctx, sdPend, opt>>
+
+(* the export timeout fires while a slow answer is still being prepared: the call ends, the answer comes too late *)
+AbortSlow(o) ==
+  /\ pc = "inflight" /\ ctx = "live" /\ DeadlinePassed /\ o \in Outcomes /\ ~Unanswered(o) /\ Dur(o) > now - sentAt
+  /\ hist' = Append(hist, Item("o", o, "", ""))
+  /\ pc' = "done"
+  /\ Observe(<<[ev |-> "Ret", t |-> now, err |-> TRUE, ref |-> 0]>>
+             \o (IF sdPend THEN <<[ev |-> "ShutdownRet", t |-> now]>> ELSE <<>>) \o <<[ev |-> "End", t |-> now]>>)
+  /\ UNCHANGED <<now, start, n, sentAt, lastO, wake, waitFrom, ctx, sdPend, opt>>
 
 Tick == /\ now < MaxClock
-        /\ \/ pc = "inflight" /\ ctx = "live" /\ \E o \in Outcomes : Dur(o) > now - sentAt
-           \/ pc = "wait" /\ ctx = "live" /\ now < wake + (IF Late THEN 1 ELSE 0)
+        /\ \/ pc = "inflight" /\ ctx = "live" /\ ~DeadlinePassed
+              /\ \E o \in Outcomes : (o.kind = "hung" \/ Dur(o) + (IF Unanswered(o) THEN Ignored ELSE 0) > now - sentAt)
+           \/ pc = "wait" /\ ctx = "live" /\ ~DeadlinePassed /\ now < wake + (IF Late THEN 1 ELSE 0)
         /\ now' = now + 1
-        /\ UNCHANGED <<pc, start, n, sentAt, lastO, wake, waitFrom, ctx, sdPend, hist, mon, bad>>
+        /\ UNCHANGED <<pc, start, n, sentAt, lastO, wake, waitFrom, ctx, sdPend, hist, mon, bad, opt>>
 
 (* retry.RequestFunc after a retryable outcome *)
 RetryPath ==
@@ -100,7 +125,7 @@ RetryPath ==
             LET delay == Max(thr, b) IN
             IF me # 0 /\ el + thr > me THEN Return(TRUE, n, <<>>)
             ELSE \/ /\ pc' = "wait" /\ wake' = now + delay /\ waitFrom' = now
-                    /\ UNCHANGED <<now, start, n, sentAt, lastO, ctx, sdPend, hist, mon, bad>>
+                    /\ UNCHANGED <<now, start, n, sentAt, lastO, ctx, sdPend, hist, mon, bad, opt>>
                  \/ /\ me # 0 /\ el + delay > me      \* the statement also admits giving up when the whole delay would overrun
                     /\ Return(TRUE, n, <<>>)
 
@@ -118,7 +143,7 @@ Eval ==
           [] OTHER -> FALSE
 
 WaitDone == /\ pc = "wait" /\ now >= wake /\ pc' = "loop"
-            /\ UNCHANGED <<now, start, n, sentAt, lastO, wake, waitFrom, ctx, sdPend, hist, mon, bad>>
+            /\ UNCHANGED <<now, start, n, sentAt, lastO, wake, waitFrom, ctx, sdPend, hist, mon, bad, opt>>
 
 (* Cancel / exporter Shutdown while the call is running.  A stop during a wait or an attempt happens right at
    its beginning unless Late (keeps the exported scripts free of redundant timing variants). *)
@@ -133,19 +158,19 @@ Stop(k) ==
         /\ Observe(IF k = "cancel" THEN <<[ev |-> "Cancel", t |-> now, k |-> n]>> \o held
                    ELSE <<[ev |-> "ShutdownCall", t |-> now, k |-> n]>>
                         \o (IF SdInterrupts THEN <<[ev |-> "ShutdownRet", t |-> now]>> ELSE <<>>) \o held)
-  /\ UNCHANGED <<pc, now, start, n, sentAt, lastO, wake, waitFrom>>
+  /\ UNCHANGED <<pc, now, start, n, sentAt, lastO, wake, waitFrom, opt>>
 
-Abort == /\ ctx # "live" /\ pc \in {"inflight", "wait"}
+Abort == /\ (ctx # "live" /\ pc \in {"inflight", "wait"}) \/ (DeadlinePassed /\ pc = "wait")
          /\ ~(Deviation = "ignoreCtxInWait" /\ pc = "wait" /\ now < wake)
          /\ Return(TRUE, 0, <<>>)
 
 TickIgnoringCtx == /\ Deviation = "ignoreCtxInWait" /\ pc = "wait" /\ ctx # "live" /\ now < wake /\ now < MaxClock
                    /\ now' = now + 1
-                   /\ UNCHANGED <<pc, start, n, sentAt, lastO, wake, waitFrom, ctx, sdPend, hist, mon, bad>>
+                   /\ UNCHANGED <<pc, start, n, sentAt, lastO, wake, waitFrom, ctx, sdPend, hist, mon, bad, opt>>
 
 Finished == pc \in {"done", "cut"} /\ UNCHANGED vars
 
-Next == \/ StopBefore \/ Call \/ Fn \/ (\E o \in Outcomes : Respond(o)) \/ Tick \/ Eval \/ WaitDone
+Next == \/ StopBefore \/ Call \/ Fn \/ (\E o \in Outcomes : Respond(o) \/ AbortSlow(o)) \/ Tick \/ Eval \/ WaitDone
         \/ (\E k \in StopKinds : Stop(k)) \/ Abort \/ TickIgnoringCtx \/ Finished
 Spec == Init /\ [][Next]_vars /\ WF_vars(Next)
 
@@ -161,5 +186,6 @@ Terminates == <>(pc \in {"done", "cut"})
 EmitBehaviour ==
   (pc # "done" /\ pc' = "done") =>
      PrintT("EDGE " \o ToJson([proto |-> Proto, enabled |-> Enabled, maxel |-> MaxElapsed, sdint |-> SdInterrupts, hist |-> hist',
+                               callto |-> CallTO, xcfg |-> opt,
                                want |-> [attempts |-> n', err |-> (mon'.ret = "err"), handled |-> Cardinality(mon'.handled), clock |-> now']]))
 =============================================================================
